@@ -474,7 +474,8 @@ Definition prep_eqb (a b : prep) : bool :=
   | RInt x, RInt y => x =? y
   | RErrNotInt, RErrNotInt => true
   | RErrOverflow, RErrOverflow => true
-  | _, _ => false          (* ROther never equals anything: the model never produces it *)
+  | ROther x, ROther y => bytes_eqb x y   (* the model never produces ROther *)
+  | _, _ => false
   end.
 Fixpoint preps_eqb (a b : list prep) : bool :=
   match a, b with
